@@ -8,12 +8,14 @@
 //	xi <id>                              the index half only (the series stays in the series file, as when
 //	                                     another shard still holds it)
 //	xm <name>                            the engine's flow for every live series of the measurement
+//	xmi <name>                           the index half only
 //	roll <p> | clog <p> | clvl <p> <l>   Partition.prependActiveLogFile / compactLogFile / compactToLevel (hooks)
 //	bg                                   enable the index's own background compaction, wait until it settles
 //	reopen                               close index and series file, open both again
-//	crash <p> <k> <extra>                close; cut partition p's newest log file after k whole entries
-//	                                     plus `extra` bytes of the next one (entry boundaries found with the
-//	                                     real LogEntry.UnmarshalBinary); open again
+//	crash <p> <k> <extra>                crash while the last mutating op was in flight: close; of the entries
+//	                                     that op appended to partition p's active log keep the first k plus
+//	                                     `extra` bytes of the next one (entry boundaries found with the real
+//	                                     LogEntry.UnmarshalBinary), truncate there; open again
 //	ms | tk <name> | tv <name> <key>     MeasurementIterator / TagKeyIterator / TagValueIterator, drained
 //	sm <name> | sk <name> <key> | sv <name> <key> <value>
 //	                                     IndexSet.{Measurement,TagKey,TagValue}SeriesIDIterator (undeleted filter)
@@ -52,6 +54,7 @@ type runner struct {
 	live   map[uint64]bool // created and not dropped from the index
 	err    error
 	opened bool
+	before []int64 // size of each partition's active log before the last mutating operation
 }
 
 func newRunner() h.CaseRunner {
@@ -194,6 +197,16 @@ func drainNames(itr byteItr, err error) string {
 	return "names " + h.Join(out)
 }
 
+// mark records, before a mutating operation, how long every active log is.
+func (r *runner) mark() {
+	r.before = make([]int64, r.partN)
+	for i := range r.before {
+		if fi, err := os.Stat(tsi1.VerifActiveLogPath(r.idx.PartitionAt(i))); err == nil {
+			r.before[i] = fi.Size()
+		}
+	}
+}
+
 func (r *runner) dropIndex(s *series) error {
 	if err := r.idx.DropSeries(s.id, s.key, false); err != nil {
 		return err
@@ -254,14 +267,18 @@ func (r *runner) Op(t []string) string {
 		}
 		name := []byte(t[3])
 		key := models.MakeKey(name, tags)
+		if part < 0 || uint64(part) >= r.partN || (id == 0 && os.Getenv("VERIF_C14_EXPLORE") == "") {
+			return "bad-op"
+		}
 		if int64(xxhash.Sum64(key)&(r.partN-1)) != part {
 			return "err:partition-mismatch"
 		}
+		r.mark()
 		if err := r.idx.CreateSeriesListIfNotExists([][]byte{key}, [][]byte{name}, []models.Tags{tags}); err != nil {
 			return "err:create"
 		}
 		real := r.sfile.SeriesID(name, tags, nil)
-		if id == 0 { // exploration only: report the id instead of checking it
+		if id == 0 { // exploration only (VERIF_C14_EXPLORE): report the id instead of checking it
 			id = real
 			r.byID[id] = &series{id: id, name: t[3], tags: tags, key: key}
 			r.live[id] = true
@@ -278,6 +295,7 @@ func (r *runner) Op(t []string) string {
 		if s == nil {
 			return "bad-op"
 		}
+		r.mark()
 		if err := r.dropIndex(s); err != nil {
 			return "err:drop"
 		}
@@ -290,7 +308,11 @@ func (r *runner) Op(t []string) string {
 			}
 		}
 		return "ok"
-	case len(t) == 2 && t[0] == "xm":
+	case len(t) == 2 && (t[0] == "xm" || t[0] == "xmi"):
+		if !okName(t[1]) {
+			return "bad-op"
+		}
+		r.mark()
 		var ss []*series
 		for id := range r.live {
 			if r.byID[id].name == t[1] {
@@ -306,9 +328,11 @@ func (r *runner) Op(t []string) string {
 		if _, err := r.idx.DropMeasurementIfSeriesNotExist([]byte(t[1])); err != nil {
 			return "err:dropm"
 		}
-		for _, s := range ss {
-			if _, err := r.sfile.DeleteSeriesID(s.id, true); err != nil {
-				return "err:sfile"
+		if t[0] == "xm" {
+			for _, s := range ss {
+				if _, err := r.sfile.DeleteSeriesID(s.id, true); err != nil {
+					return "err:sfile"
+				}
 			}
 		}
 		return "ok"
@@ -319,6 +343,9 @@ func (r *runner) Op(t []string) string {
 		}
 		if err := tsi1.VerifRoll(p); err != nil {
 			return "err:roll"
+		}
+		if r.before != nil {
+			r.before[h.Atoi(t[1])] = 0
 		}
 		return "ok"
 	case len(t) == 2 && t[0] == "clog":
@@ -362,6 +389,12 @@ func (r *runner) Op(t []string) string {
 			return "err:read"
 		}
 		off, n := 0, 0
+		if r.before != nil {
+			off = int(r.before[pn])
+		}
+		if off > len(data) {
+			off = len(data)
+		}
 		for n < k && off < len(data) {
 			var e tsi1.LogEntry
 			if err := e.UnmarshalBinary(data[off:]); err != nil {
@@ -388,7 +421,7 @@ func (r *runner) Op(t []string) string {
 			return "err:open"
 		}
 		// the harness's notion of "live in the index" is rebuilt by the generator's ops only
-		return fmt.Sprintf("ok kept=%d", n)
+		return "ok"
 	case len(t) == 1 && t[0] == "ms":
 		return drainNames(r.idx.MeasurementIterator())
 	case len(t) == 2 && t[0] == "tk":
@@ -417,7 +450,263 @@ func (r *runner) Op(t []string) string {
 	return "bad-op"
 }
 
+// ---------------------------------------------------------------- generator
+
+// genSeries is one series of the generator's universe.
+type genSeries struct {
+	name string
+	tags [][2]string // sorted by key
+}
+
+func (g genSeries) tagsTok() string {
+	var parts []string
+	for _, kv := range g.tags {
+		parts = append(parts, kv[0]+"="+kv[1])
+	}
+	return h.Join(parts)
+}
+
+func (g genSeries) mtags() models.Tags {
+	var t models.Tags
+	for _, kv := range g.tags {
+		t = append(t, models.NewTag([]byte(kv[0]), []byte(kv[1])))
+	}
+	return t
+}
+
+// mirror predicts what the series file and the index's partitioning will answer.
+type mirror struct {
+	partN   uint64
+	seq     [tsdb.SeriesFilePartitionN]uint64 // creations so far per series-file partition
+	idOf    map[string]uint64                 // series key -> id of the live (undeleted) series
+	known   []uint64
+	nameOf  map[uint64]string
+	deleted map[uint64]bool
+	ops     []string
+}
+
+func newMirror(partN uint64) *mirror {
+	return &mirror{partN: partN, idOf: map[string]uint64{}, nameOf: map[uint64]string{}, deleted: map[uint64]bool{}}
+}
+
+func (m *mirror) emit(op string) { m.ops = append(m.ops, op) }
+
+func (m *mirror) create(g genSeries) uint64 {
+	tags := g.mtags()
+	skey := string(tsdb.AppendSeriesKey(nil, []byte(g.name), tags))
+	id, ok := m.idOf[skey]
+	if !ok {
+		p := xxhash.Sum64([]byte(skey)) % tsdb.SeriesFilePartitionN
+		id = (p + 1) + tsdb.SeriesFilePartitionN*m.seq[p]
+		m.seq[p]++
+		m.idOf[skey] = id
+		m.known = append(m.known, id)
+		m.nameOf[id] = g.name
+	}
+	part := xxhash.Sum64(models.MakeKey([]byte(g.name), tags)) & (m.partN - 1)
+	m.emit(fmt.Sprintf("c %d %d %s %s", id, part, g.name, g.tagsTok()))
+	return id
+}
+
+// sfileDelete: the series file forgets the key (a re-creation gets a new id).
+func (m *mirror) sfileDelete(id uint64) {
+	m.deleted[id] = true
+	for k, v := range m.idOf {
+		if v == id {
+			delete(m.idOf, k)
+		}
+	}
+}
+
+func (m *mirror) drop(id uint64) { m.emit(fmt.Sprintf("x %d", id)); m.sfileDelete(id) }
+
+func (m *mirror) dropMeasurement(name string, tracked map[uint64]bool) {
+	m.emit("xm " + name)
+	for id := range tracked {
+		if m.nameOf[id] == name {
+			m.sfileDelete(id)
+			delete(tracked, id)
+		}
+	}
+}
+
+var (
+	genNames  = []string{"m", "n"}
+	genKeys   = []string{"k1", "k2"}
+	genValues = []string{"a", "b"}
+)
+
+func universe() []genSeries {
+	var out []genSeries
+	for _, n := range genNames {
+		sets := [][][2]string{{}}
+		for _, k := range genKeys {
+			var next [][][2]string
+			for _, base := range sets {
+				next = append(next, base)
+				for _, v := range genValues {
+					next = append(next, append(append([][2]string{}, base...), [2]string{k, v}))
+				}
+			}
+			sets = next
+		}
+		for _, ts := range sets {
+			out = append(out, genSeries{name: n, tags: ts})
+		}
+	}
+	return out
+}
+
+// sweep: every view over the universe of names / keys / values.
+func (m *mirror) sweep() {
+	m.emit("ms")
+	for _, n := range genNames {
+		m.emit("tk " + n)
+		m.emit("sm " + n)
+		for _, k := range genKeys {
+			m.emit("tv " + n + " " + k)
+			m.emit("sk " + n + " " + k)
+			for _, v := range genValues {
+				m.emit("sv " + n + " " + k + " " + v)
+			}
+		}
+	}
+}
+
+// structural: a roll / compaction / reopen step that must not change any view.
+func (m *mirror) structural(r *h.Rand) {
+	p := r.Intn(int(m.partN))
+	switch r.Intn(6) {
+	case 0:
+		m.emit(fmt.Sprintf("roll %d", p))
+	case 1:
+		m.emit(fmt.Sprintf("roll %d", p))
+		m.emit(fmt.Sprintf("clog %d", p))
+	case 2:
+		m.emit(fmt.Sprintf("clog %d", p))
+	case 3:
+		m.emit(fmt.Sprintf("clvl %d %d", p, 1+r.Intn(2)))
+	case 4:
+		m.emit("reopen")
+	case 5:
+		if m.partN > 1 { // all partitions
+			for q := 0; q < int(m.partN); q++ {
+				m.emit(fmt.Sprintf("roll %d", q))
+			}
+		} else {
+			m.emit("roll 0")
+			m.emit("clog 0")
+			m.emit("clvl 0 1")
+		}
+	}
+}
+
 func gen(r *h.Rand, tier string, emit func([]string)) {
+	uni := universe()
+	// a small alphabet for the exhaustive part: three series of m (two sharing a key), one of n
+	small := []genSeries{
+		{name: "m", tags: [][2]string{{"k1", "a"}}},
+		{name: "m", tags: [][2]string{{"k1", "b"}}},
+		{name: "m", tags: [][2]string{{"k1", "a"}, {"k2", "b"}}},
+		{name: "n", tags: [][2]string{{"k1", "a"}}},
+	}
+	// mutating alphabet: create i, drop i, drop measurement m
+	nAlpha := 2*len(small) + 1
+	maxLen := 3
+	if tier == "thorough" {
+		maxLen = 4
+	}
+	var seqs [][]int
+	var rec func(prefix []int)
+	rec = func(prefix []int) {
+		if len(prefix) > 0 {
+			seqs = append(seqs, append([]int{}, prefix...))
+		}
+		if len(prefix) == maxLen {
+			return
+		}
+		for a := 0; a < nAlpha; a++ {
+			rec(append(prefix, a))
+		}
+	}
+	rec(nil)
+	for _, sq := range seqs {
+		partN := uint64(1)
+		if r.Chance(0.15) {
+			partN = 8
+		}
+		m := newMirror(partN)
+		m.emit(fmt.Sprintf("cfg %d", partN))
+		ids := map[int]uint64{}
+		tracked := map[uint64]bool{}
+		valid := true
+		for _, a := range sq {
+			switch {
+			case a < len(small):
+				id := m.create(small[a])
+				ids[a] = id
+				tracked[id] = true
+			case a < 2*len(small):
+				id, ok := ids[a-len(small)]
+				if !ok {
+					valid = false
+				} else {
+					m.drop(id)
+					delete(tracked, id)
+				}
+			default:
+				m.dropMeasurement("m", tracked)
+			}
+			if !valid {
+				break
+			}
+			m.sweep()
+			if r.Chance(0.7) {
+				m.structural(r)
+				m.sweep()
+			}
+		}
+		if valid {
+			emit(m.ops)
+		}
+	}
+	// random longer histories over the full universe
+	nRandom := 150
+	if tier == "thorough" {
+		nRandom = 1500
+	}
+	for c := 0; c < nRandom; c++ {
+		partN := uint64(1)
+		if r.Chance(0.25) {
+			partN = 8
+		}
+		m := newMirror(partN)
+		m.emit(fmt.Sprintf("cfg %d", partN))
+		tracked := map[uint64]bool{}
+		var everCreated []uint64
+		steps := 8 + r.Intn(12)
+		for i := 0; i < steps; i++ {
+			switch x := r.Intn(100); {
+			case x < 45 || len(everCreated) == 0:
+				id := m.create(h.Pick(r, uni))
+				tracked[id] = true
+				everCreated = append(everCreated, id)
+			case x < 65:
+				id := h.Pick(r, everCreated)
+				m.drop(id)
+				delete(tracked, id)
+			case x < 72:
+				m.dropMeasurement(h.Pick(r, genNames), tracked)
+			default:
+				m.structural(r)
+			}
+			if r.Chance(0.6) {
+				m.sweep()
+			}
+		}
+		m.sweep()
+		emit(m.ops)
+	}
 }
 
 func main() { h.Main(h.Harness{Gen: gen, NewCase: newRunner}) }
